@@ -63,6 +63,10 @@ partial def termToGo : Term → GoVal
   | .list [.atom "NT", .atom "1"] => .struct [(b "B", true, .str (b "y")), (b "C", true, .bool true), (b "A", true, .int 2)]
   | .list [.atom "NT", .atom "2"] =>
     .struct [(b "Name", true, .str (b "n")), (b "inner", false, .int 5), (b "Tags", true, .slice [.str (b "t")])]
+  | .list [.atom "NT", .atom "4"] =>
+    .ptr (some (.struct [(b "Head", true, .int 3), (b "Active", true, .ptr (some (.int 3))), (b "Name", true, .str (b "n")),
+      (b "Next", true, .ptr (some (.struct [(b "Head", true, .int 4), (b "Active", true, .ptr (some (.int 3))),
+        (b "Name", true, .str (b "m")), (b "Next", true, .ptr none)])))]))
   | .list [.atom "NT", .atom _] => .struct []
   | _ => .other "?"
 where
@@ -147,6 +151,15 @@ def doOp (cwd : Bytes) (h : HState) (op : Term) : HState × String :=
       ({ w, tpl := some t }, "NEWOK " ++ String.intercalate "," ((sortByKey t).map fun p => hd p.1))
     | (w, .error f) => ({ w, tpl := none }, "NEWERR " ++ showFail f)
   | .list [.atom "RESET"] => ({ w := { fs := h.w.fs }, tpl := none }, "RESETOK")
+  | .list [.atom "WRITE", .atom p, .atom c] =>
+    -- a file is written (its directories exist already or are added)
+    let path := cleanPath (hexOf p)
+    let dirs := (List.range (splitPath path).length).filterMap fun i =>
+      if i == 0 then none else some (joinBytes [47] ((splitPath path).take i))
+    let fs1 := dirs.foldl (fun (m : Fs) d => if (mapGet m d).isSome then m else m ++ [(d, Entry.dir)]) h.w.fs
+    ({ h with w := { h.w with fs := mapSet fs1 path (Entry.file (hexOf c)) } }, "WRITEOK")
+  | .list [.atom "RM", .atom p] =>
+    ({ h with w := { h.w with fs := h.w.fs.filter fun e => e.1 != cleanPath (hexOf p) } }, "RMOK")
   | .list [.atom "REG", .atom ty, .atom n, .atom fid] =>
     match registerFunc h.w (vtypeOf ty) (hexOf n) (fid.toNat?.getD 0) with
     | (w, none) => ({ h with w }, "REGOK")
